@@ -23,6 +23,7 @@ Next ==
   \/ Tick
   \/ \E c \in ExitCodes : ChildExit(1, c)
   \/ ChildDie(1)
+  \/ ChildCloseX(1)
 
 Spec == Init /\ [][Next]_vars
 
